@@ -67,6 +67,62 @@ func c14(c *Ctx) {
 	newUpgA(c).tokenListOWS("C14.token-list")
 	d.keyFresh("C14.key-fresh")
 	d.preNetwork("C14.url-guards", "C14.request-shape", "C14.key-fresh")
+	d.originForm("C14.request-shape")
+}
+
+// originForm: the handshake request is serialised with (*http.Request).Write
+// (request line "GET /path?query HTTP/1.1", Host from the request); the proxy
+// form (WriteProxy: absolute URI in the request line) is never used, whether
+// called or taken as a method value - the request travels through the CONNECT
+// tunnel and is read by the origin server.
+func (d *dialA) originForm(rule string) {
+	c := d.c
+	fns := []*ssa.Function{d.dial}
+	for callee := range c.P.Mod(d.dial).Callees {
+		if c.isNewHelper(callee, 1) {
+			fns = append(fns, callee)
+		}
+	}
+	for _, a := range d.dial.AnonFuncs {
+		fns = append(fns, a)
+	}
+	nWrite, bad := 0, ""
+	name := func(v ssa.Value) string {
+		switch f := v.(type) {
+		case *ssa.Function:
+			if f.Synthetic != "" && strings.HasSuffix(f.Name(), "$bound") {
+				return strings.TrimSuffix(f.String(), "$bound")
+			}
+			return f.String()
+		case *ssa.MakeClosure:
+			if g, ok := f.Fn.(*ssa.Function); ok {
+				return strings.TrimSuffix(g.String(), "$bound")
+			}
+		}
+		return ""
+	}
+	for _, fn := range fns {
+		for _, b := range fn.Blocks {
+			for _, in := range b.Instrs {
+				for _, op := range in.Operands(nil) {
+					if *op == nil {
+						continue
+					}
+					switch name(*op) {
+					case "(*net/http.Request).Write":
+						nWrite++
+					case "(*net/http.Request).WriteProxy":
+						bad = c.P.Pos(in.Pos())
+					}
+				}
+			}
+		}
+	}
+	why := "the request is serialised by (*http.Request).Write only"
+	if bad != "" {
+		why = "the handshake request is (or can be) serialised with WriteProxy at " + bad + ": the request line carries an absolute URI instead of the path and query of the URL"
+	}
+	c.R.Check(rule, shortFn(d.dial), "request-written-in-origin-form", d.dial.Pos(), bad == "" && nWrite > 0, why)
 }
 
 func (d *dialA) replyGuards(rule, ruleAdopt string) {
